@@ -3,18 +3,22 @@ property's quick check for two seeds; git -C /repo checkout -- .) and store it u
 import json, os, re, shutil, subprocess, sys
 
 VERIF = "/verif"
+PREFIX = os.environ.get("WT_PREFIX", "/tmp/mut-")
+SUFFIX = os.environ.get("NAME_SUFFIX", "")
+CONFIRM = os.environ.get("CONFIRM_PREFIX", "/tmp/confirm_")
 ids = sys.argv[1:] or ["C%02d" % i for i in range(1, 21)]
 extra_checks = {"C09-A": ["C14"]}
 for pid in ids:
     for v in ("A", "B"):
-        src = f"/tmp/mut-{pid}/_seeded/{v}"
+        src = f"{PREFIX}{pid}/_seeded/{v}"
         if not os.path.exists(f"{src}/patch.diff"):
             continue
-        name = f"{pid}-{v}"
+        name = f"{pid}-{v}{SUFFIX}"
         dst = f"{VERIF}/seeded/{name}"
         os.makedirs(dst, exist_ok=True)
-        for f in ("patch.diff", "demo.py", "notes.md"):
-            shutil.copy(f"{src}/{f}", f"{dst}/{f}")
+        for f in os.listdir(src):
+            if f.endswith((".diff", ".py", ".md")):
+                shutil.copy(f"{src}/{f}", f"{dst}/{f}")
         assert subprocess.run(["git", "-C", "/repo", "status", "--porcelain"], capture_output=True, text=True).stdout.strip() == ""
         chk = subprocess.run(["git", "-C", "/repo", "apply", "--check", f"{dst}/patch.diff"], capture_output=True, text=True)
         runs = []
@@ -24,13 +28,13 @@ for pid in ids:
                 runs.append({"check": cid, "output": p.stdout.strip().splitlines(), "caught": p.returncode == 0})
         assert subprocess.run(["git", "-C", "/repo", "status", "--porcelain"], capture_output=True, text=True).stdout.strip() == ""
         confirm = ""
-        lg = f"/tmp/confirm_{pid}.log"
+        lg = f"{CONFIRM}{pid}.log"
         if os.path.exists(lg):
             confirm = [l for l in open(lg).read().splitlines() if l.startswith(f"{pid}/{v} ") or l.startswith("   ")]
         notes = open(f"{dst}/notes.md").read()
         meta = {
             "id": name, "property": pid,
-            "source": "independent sub-agent given only the property text and a scratch worktree (/tmp/mut-%s); nothing from /verif" % pid,
+            "source": "independent sub-agent given only the property text and a scratch worktree (%s%s); nothing from /verif" % (PREFIX, pid),
             "summary": notes.strip().splitlines()[0:12],
             "confirmed_in_scratch_worktree": confirm,
             "applies_to_repo_head": chk.returncode == 0,
